@@ -68,9 +68,17 @@ end
 
 def foldEq (key : String) (upper : String) : Bool := foldName key == upper.toList
 
-/-- `struct{ A int `validate:"min=1"` }` -/
-def decodeVStruct : Json → Option Json
-  | .null => none                        -- zero struct, A = 0 fails min=1
+def listAll? {α β : Type} (f : α → Option β) : List α → Option (List β)
+  | [] => some []
+  | x :: xs => do
+    let y ← f x
+    let ys ← listAll? f xs
+    pure (y :: ys)
+
+/-- `json.Unmarshal` into `struct{ A int `validate:"min=1"` }` (before validation): the value
+of `A`, `none` on a type error. `null` leaves the zero struct. -/
+def decodeVStructRaw : Json → Option Int
+  | .null => some 0
   | .obj kvs =>
     let st : Option Int × Bool := kvs.foldl (fun (st : Option Int × Bool) kv =>
       if kv.1 == "A" || foldEq kv.1 "A" then
@@ -81,9 +89,30 @@ def decodeVStruct : Json → Option Json
           | none => (st.1, true)
         | _ => (st.1, true)
       else st) (none, false)
-    if st.2 then none else
-    let a := st.1.getD 0
-    if a ≥ 1 then some (.obj [("A", intJson a)]) else none
+    if st.2 then none else some (st.1.getD 0)
+  | _ => none
+
+def vstructJson (a : Int) : Json := .obj [("A", intJson a)]
+
+/-- … followed by `validator.Struct`: `min=1` -/
+def decodeVStruct (v : Json) : Option Json :=
+  match decodeVStructRaw v with
+  | some a => if a ≥ 1 then some (vstructJson a) else none
+  | none => none
+
+/-- `[]struct{A}`: `validateParam` walks the slice and validates every element -/
+def decodeVSlice : Json → Option Json
+  | .null => some .null
+  | .arr xs => (listAll? decodeVStruct xs).map .arr
+  | _ => none
+
+/-- `map[string]*struct{A}`: `validateParam` walks the map; a nil pointer is not validated -/
+def decodeVMap : Json → Option Json
+  | .null => some .null
+  | .obj kvs =>
+    (listAll? (fun (kv : String × Json) => match kv.2 with
+      | .null => some (kv.1, Json.null)
+      | v => (decodeVStruct v).map (fun j => (kv.1, j))) kvs).map .obj
   | _ => none
 
 def hexVal? (c : Char) : Option Nat :=
@@ -173,13 +202,6 @@ def decodeBounds : Json → Option Json
 
 /-! ## the environment -/
 
-def listAll? {α β : Type} (f : α → Option β) : List α → Option (List β)
-  | [] => some []
-  | x :: xs => do
-    let y ← f x
-    let ys ← listAll? f xs
-    pure (y :: ys)
-
 /-- (`strictAny` is unused since numbers at `any` are modelled exactly, see ModelFloat.lean) -/
 def goDecode (_strictAny : Bool) : PType → Json → Option Json
   | .any, v => floatNums (canon v)
@@ -198,6 +220,8 @@ def goDecode (_strictAny : Bool) : PType → Json → Option Json
   | .ints, _ => none
   | .vstruct, v => decodeVStruct (canon v)
   | .bounds, v => decodeBounds (canon v)
+  | .vslice, v => decodeVSlice (canon v)
+  | .vmap, v => decodeVMap (canon v)
 
 def goZero : PType → Json
   | .any => .null
@@ -209,6 +233,8 @@ def goZero : PType → Json
   | .ints => .null
   | .vstruct => .obj [("A", .num "0")]
   | .bounds => .obj [("max_amount", .null), ("max_price_per_unit", .null), ("version", .null)]
+  | .vslice => .null
+  | .vmap => .null
 
 /-- behaviours of the harness' recording handlers -/
 inductive Behaviour where
